@@ -21,7 +21,7 @@ ASSUMPTIONS = ["numpy.linalg.eigvalsh on symmetrised arrays"]
 
 
 def gen_cases(tier, seed):
-    n = 96 if tier == "quick" else 3000
+    n = 240 if tier == "quick" else 3000
     cases = []
     for i in range(n):
         rng = bases.rng_for("C17", seed, tier, i)
